@@ -159,7 +159,7 @@ structure Thread where
   peer : Option (Nat × Rep)
   /-- static: its level in the client / server hierarchy (used by the discipline only) -/
   lvl : Nat
-  deriving Repr
+  deriving Repr, DecidableEq
 
 structure Config where
   threads : List Thread
@@ -276,6 +276,14 @@ def step (S : Sys) (c : Config) (i n p : Nat) : Option Config :=
   match c.threads[i]? with
   | none => none
   | some t => stepT S c i n p t
+
+/-- run a schedule: a list of (thread, branch choice, request choice) -/
+def run (S : Sys) : Config → List (Nat × Nat × Nat) → Option Config
+  | c, [] => some c
+  | c, (i, n, p) :: ms =>
+    match step S c i n p with
+    | some c' => run S c' ms
+    | none => none
 
 /-- reachability -/
 inductive Reach (S : Sys) (c₀ : Config) : Config → Prop where
